@@ -547,7 +547,7 @@ pub fn insert_trivia(text: &str, seed: u64, no_splices: bool) -> String {
         let untouchable = trimmed.starts_with('#')
             || was_in_comment
             || in_directive_continuation
-            || body.contains('"')
+            || body.matches('"').count() % 2 == 1
             || body.contains("//")
             || body.contains("/*")
             || body.contains("*/")
@@ -592,15 +592,38 @@ pub fn insert_trivia(text: &str, seed: u64, no_splices: bool) -> String {
             }
         };
         let chars: Vec<char> = body.chars().collect();
+        // a string literal is one unit (no escapes can occur: lines with a backslash are left alone)
+        let mut in_string = vec![false; chars.len()];
+        {
+            let mut open = false;
+            for (k, c) in chars.iter().enumerate() {
+                if *c == '"' {
+                    in_string[k] = true;
+                    open = !open;
+                } else {
+                    in_string[k] = open;
+                }
+            }
+        }
+        let kind = |k: usize| if in_string[k] { K::Word } else { kind(chars[k]) };
         let mut i = 0;
         let mut prev_last: Option<char> = None;
         // inside a float literal with a signed exponent (1.5e+38f) there is no token boundary
         let mut in_exponent = 0u8;
         while i < chars.len() {
-            let k = kind(chars[i]);
+            let k = kind(i);
             let mut j = i;
-            while j < chars.len() && kind(chars[j]) == k {
-                j += 1;
+            if in_string[i] {
+                // exactly one literal per unit, so that two adjacent literals have a boundary
+                j = i + 1;
+                while j < chars.len() && chars[j] != '"' {
+                    j += 1;
+                }
+                j = (j + 1).min(chars.len());
+            } else {
+                while j < chars.len() && !in_string[j] && kind(j) == k {
+                    j += 1;
+                }
             }
             let unit: String = chars[i..j].iter().collect();
             let glued = if in_exponent > 0 && k != K::Space {
